@@ -5,6 +5,16 @@ Serves C01 (delivery), C04 (violations), C05 (pipeline / fail-fast), C14 (pongs)
 from .common import *
 
 
+def build_ping_sweep(c, P):
+    """one Ping (or Pong) with a solver-chosen payload length 0..125: symbolic content at both ends"""
+    L = c.choose(126, 'plen')
+    head = [c.byte('pp%d' % i) for i in range(min(L, 3))]
+    tail = [c.byte('pq%d' % i) for i in range(min(max(L - 3, 0), 3))]
+    mid = [(7 * i + 1) & 0xFF for i in range(L - len(head) - len(tail))]
+    op = P.get('sweep_opcode', 9)
+    return [0x80 | op, L] + head + mid + tail + list(bytes.fromhex(P.get('suffix', '')))
+
+
 def build_stream(c, P):
     """prefix (concrete) ++ N symbolic bytes, optionally constrained"""
     pre = list(bytes.fromhex(P.get('prefix', '')))
@@ -80,6 +90,9 @@ def run_recv(c, P):
     tcls = None
     if P.get('family'):
         stream, tcls = build_family(c, P)
+    elif P.get('ping_sweep'):
+        stream = build_ping_sweep(c, P)
+        tcls = 'plen%d' % (len(stream) - 2 - len(P.get('suffix', '')) // 2)
     else:
         stream = build_stream(c, P)
     w.default_script = HsThenCuts(w, hconn.server_stream(stream), P.get('cuts', 'one'), end='eof')
